@@ -240,6 +240,54 @@ fn e2e_streamed_signing(ctx: &mut Ctx) {
     }
 }
 
+/// a source that fails ONCE with `ErrorKind::Interrupted` (which `io::copy`, `read_to_end` and
+/// friends retry, as the `Read` contract asks) is just another way of delivering the same text: the
+/// canonical octets and the verdict over them are the same, or the fault itself is reported — never
+/// a canonical stream with a hole
+fn interrupted_sources(ctx: &mut Ctx) {
+    use pgp::composed::DetachedSignature;
+    use pgp::crypto::hash::HashAlgorithm;
+    use pgp::types::{KeyVersion, Password};
+    use rand::SeedableRng;
+    let mut rng = rand_chacha::ChaCha8Rng::seed_from_u64(1416);
+    let key = crate::keys::ed25519_x25519(&mut rng, KeyVersion::V4);
+    let pk = key.to_public_key();
+    for (n, sched) in [(1500usize, vec![100usize, 412, 300]), (1024, vec![512, 1, 511]), (600, vec![7; 200]), (5000, vec![1000; 8])] {
+        let text = gen::random_text(&mut ctx.rng, n, b"ab \r\n\n");
+        let want = canon_ref(&text);
+        // the reader on its own, drained the way std does it
+        let mut probe = ScheduledReader::new(&text, &sched);
+        let _ = std::io::copy(&mut NormalizedReader::new(&mut probe, LineBreak::Crlf), &mut std::io::sink());
+        let calls = probe.calls_made;
+        for k in 0..calls {
+            let r = guarded(|| {
+                let src = ScheduledReader::new(&text, &sched).with_fault_kind(k, std::io::ErrorKind::Interrupted);
+                let mut out = Vec::new();
+                std::io::copy(&mut NormalizedReader::new(src, LineBreak::Crlf), &mut out).map(|_| out).map_err(|e| e.to_string())
+            });
+            let ok = match &r {
+                Ok(Ok(out)) => *out == want,
+                Ok(Err(_)) => true,
+                Err(_) => false,
+            };
+            ctx.oracle("reader_is_canon", "normalize_lines.rs NormalizedReader over a source interrupted once (io::copy retries)", &format!("n={n} schedule={:?} Interrupted@read#{k} text={}", &sched[..sched.len().min(4)], hx(&text)), ok, &format!("{:?}", r.as_ref().map(|x| x.as_ref().map(|o| o.len()))));
+            ctx.stat("gen:interrupted_reader");
+        }
+        // a valid text signature verified from such a source
+        let Ok(sig) = DetachedSignature::sign_text_data(&mut rng, &key.primary_key, &Password::empty(), HashAlgorithm::Sha256, &text[..]) else { continue };
+        for k in (0..calls).step_by(if ctx.thorough() { 1 } else { 3 }) {
+            let r = guarded(|| sig.signature.verify(&pk.primary_key, ScheduledReader::new(&text, &sched).with_fault_kind(k, std::io::ErrorKind::Interrupted)).map_err(|e| e.to_string()));
+            let ok = match &r {
+                Ok(Ok(())) => true,
+                Ok(Err(e)) => e.contains("injected source fault"),
+                Err(_) => false,
+            };
+            ctx.oracle("text_signature_follows_canon", "DetachedSignature::verify over a source interrupted once", &format!("n={n} Interrupted@read#{k} text={}", hx(&text)), ok, &format!("{r:?}"));
+            ctx.stat("gen:interrupted_verify");
+        }
+    }
+}
+
 fn sha2_256(d: &[u8]) -> Vec<u8> {
     use sha2::Digest;
     sha2::Sha256::digest(d).to_vec()
@@ -248,6 +296,7 @@ fn sha2_256(d: &[u8]) -> Vec<u8> {
 pub fn run(ctx: &mut Ctx) {
     e2e_text_signatures(ctx);
     e2e_streamed_signing(ctx);
+    interrupted_sources(ctx);
     let alphabet = [b'\r', b'\n', b'x'];
     // exhaustive: all strings up to length L, all chunkings up to length Lc
     let (l_all, l_chunk) = ctx.pick((8usize, 6usize), (10usize, 8usize));
